@@ -206,6 +206,7 @@ def handle : List String → String
   | ["agg", "numf", k, r, h, q] => (C07NumF64.handle ["agg", "numf", k, r, h, q]).getD "bad-args"
   | ["agg", "numfv", k, r, h, q] => (C07NumF64.handle ["agg", "numfv", k, r, h, q]).getD "bad-args"
   | ["agg", "numerr", e, h] => (C07NumF64.handle ["agg", "numerr", e, h]).getD "bad-args"
+  | ["agg", "numh", k, r, o, q] => (C07NumF64.handle ["agg", "numh", k, r, o, q]).getD "bad-args"
   | ["agg", "counter", h] =>
     match decHexList h with
     | some hist => "ok " ++ bar ((prefixes Counter.sample {} hist).map dumpCounter)
